@@ -75,18 +75,19 @@ Theorem C04_failures_exact : forall st ca,
   (* depth limit *)
   /\ (forall t, valid_sym_b t = true -> MaxLevel + 1 <= len (s_path st) ->
       apply_target t st ca = (st, ca, t, SErr EGen None))
+  (* a move to the node the session is already at is refused *)
+  /\ (forall t, valid_sym_b t = true -> where_sym st = t ->
+      apply_target t st ca = (st, ca, t, SErr EGen None))
   (* ">" never fails once there is a node; the index wraps at 2^16 *)
   /\ (s_path st <> [] ->
       apply_target t_next st ca = (set_path_idx st (s_path st) (w16 (s_idx st + 1)), ca, where_sym st, SOk)).
 Proof. exact failures_exact_lemma. Qed.
 
-(* the only reachable panic is State.Down's "down into same node" (the maxlevel panic is
-   shadowed by applyTarget's depth check; Pop and Rewind do not panic); no well-formedness
-   of state or cache is needed for this *)
-Theorem C04_no_panic : forall t st ca,
-  is_spanic (snd (apply_target t st ca)) = true <->
-  valid_sym_b t = true /\ s_path st <> [] /\ len (s_path st) <= MaxLevel /\ last (s_path st) [] = t.
-Proof. exact apply_panic_iff. Qed.
+(* applyTarget never panics, for any target, state and cache (no well-formedness needed):
+   State.Down's "maxlevel" and "down into same node" panics are both behind applyTarget's own
+   checks (depth limit; target = current node, since repair b32c1a0); Pop and Rewind do not panic *)
+Theorem C04_no_panic : forall t st ca, is_spanic (snd (apply_target t st ca)) = false.
+Proof. exact apply_never_panics. Qed.
 
 (* History form.  nav_run applies a list of targets one after the other (state and cache as
    each call left them) and logs those that returned nil.  Full statement (false today):
@@ -131,7 +132,7 @@ Theorem C04_matchers_char : forall s,
 Proof. exact matchers_char_lemma. Qed.
 
 (* non-vacuity: the example table of navigation.texi, followed by a failing "<", a descent into
-   the current node (panic), a malformed target and a second rewind *)
+   the current node (refused), a malformed target and a second rewind *)
 Example C04_nonvacuous :
   let ts := [s2b "foo"; s2b "bar"; s2b "baz"; t_next; t_next; t_prev; t_same; t_up; s2b "baz"; t_top;
              t_prev; s2b "foo"; s2b "x"; t_next; t_top] in
